@@ -747,7 +747,11 @@ class Term(Container):
         for o in self.objects:
             diag_obj, sub_obj = o.diagonalize_fock(target, return_sympy=True)
             diag *= diag_obj
-            if any(k in sub and sub[k] != v for k, v in sub_obj.items()):
+            # intersecting indices: the same index is replaced by different
+            # indices, or an index that is replaced by one fock element is
+            # the surviving index of another one (f_ij f_jk: j -> i, k -> j)
+            if any((k in sub and sub[k] != v) or v in sub or
+                   k in sub.values() for k, v in sub_obj.items()):
                 raise NotImplementedError("Did not implement the case of "
                                           "multiple fock matrix elements with "
                                           f"intersecting indices: {self}")
